@@ -68,6 +68,10 @@ def gen(rng, index, tier):
     else:
         plan["mode"] = "B"
         plan["rng_seed"] = rng.getrandbits(32)
+    # history: the session is entered through monkeytype.trace(config) on a Config object that already
+    # served an earlier session with another sampling rate (a long-lived deployment changing its rate)
+    if rng.random() < 0.3:
+        plan["earlier_rate"] = rng.choice([None, 1, 2, 100])
     return plan
 
 
@@ -97,6 +101,42 @@ class ScriptedRandom:
         return getattr(_random, name)
 
 
+def config_session(earlier_rate):
+    """Session factory going through monkeytype.trace(config) with ONE Config object that first
+    serves a (workload-free) session at `earlier_rate` and then the real one."""
+    import monkeytype
+    from monkeytype.config import Config
+
+    state = {}
+
+    class Cfg(Config):
+        def trace_store(self):
+            raise NotImplementedError
+
+        def trace_logger(self):
+            return state["logger"]
+
+        def code_filter(self):
+            return state["flt"]
+
+        def sample_rate(self):
+            return state["rate"]
+
+        def max_typed_dict_size(self):
+            return state["k"]
+
+    cfg = Cfg()
+
+    def session(logger, k, flt, rate):
+        state.update({"logger": c02.TeeLogger(), "flt": flt, "rate": earlier_rate, "k": k})
+        with monkeytype.trace(cfg):
+            pass
+        state.update({"logger": logger, "flt": flt, "rate": rate, "k": k})
+        return monkeytype.trace(cfg)
+
+    return session
+
+
 RENAME = {"C18.once": "C18.all-when-off", "C18.order": "C18.all-when-off"}
 
 
@@ -114,9 +154,12 @@ def execute(plan):
         MT.random = stand_in
     else:
         _random.seed(plan["rng_seed"])
+    session = None
+    if "earlier_rate" in plan:
+        session = config_session(plan["earlier_rate"])
     try:
         try:
-            J, logger, residue, admitted = c02.run_world(plan, lp, sample_rate=rate)
+            J, logger, residue, admitted = c02.run_world(plan, lp, sample_rate=rate, session=session)
         finally:
             MT.random = real_random
     except BaseException as e:
